@@ -600,15 +600,17 @@ def scenario(case, light=False):
     # now: a later registration in each of them reaches every entry point
     t = World(flavour, audit=False)
     t.apply_mutation_only(action)
-    for x in (w, t):
-        x.base.register([x.I1], x.P, 'b1', x.fNEW)
-        x.base2.register([x.I1], x.P, 'b2', x.fNEW)
-        x.base3.register([x.I1], x.P, 'b3', x.fNEW)
-    for e in ENTRIES:
-        lz = e in LAZY_OK and lazy
-        a, b = norm(w.call(e, lz)), norm(t.call(e, lz))
-        if a != b:
-            return ('stale-after-a-later-registration-in-a-base:' + e, a, b), True
+    # (one registry at a time, the one that was not a base at first before the
+    # others: a registration in a registry the lookup object does watch would
+    # make it start afresh and hide that it does not watch another one)
+    for which, nm_ in (('base3', 'b3'), ('base2', 'b2'), ('base', 'b1')):
+        for x in (w, t):
+            getattr(x, which).register([x.I1], x.P, nm_, x.fNEW)
+        for e in ENTRIES:
+            lz = e in LAZY_OK and lazy
+            a, b = norm(w.call(e, lz)), norm(t.call(e, lz))
+            if a != b:
+                return ('stale-after-a-later-registration-in-a-base:' + e, which, a, b), True
     # no leak: once the lookup has ended and the caches are cleared, nobody
     # but the harness (and the pinned dict one level up) refers to a container
     # the interrupted frame was holding
